@@ -31,7 +31,7 @@ PROPS["C07"] = dict(
         "Zrnt.Proofs.C07.ctx_proposer_eq_spec_partial_sha256",
         "Zrnt.Proofs.C07.newEpochsContext_total_sha256",
     ],
-    modes=[dict(name="committees"), dict(name="c07chain")],
+    modes=[dict(name="committees"), dict(name="c07chain", tie_lines=[r"^genfail\b"])],
     level="proof",
     trusted_base=TB_COMMON + [
         "hand model lean/Zrnt/Beacon/Committees.lean of shuffling.go / proposers.go / sync_committee.go / randao.go / epochs_context.go (NewShufflingEpoch slicing, ComputeProposerIndex with its 1000x32 cut-off, ComputeSyncCommitteeIndices with its cached hash, GetSeed, the three-epoch lookups), tied on every run by correspondence with a real EpochsContext built over synthetic phase0/altair BeaconState views (mode committees) and with the LIVE EpochsContext of real chains crossing all five forks (mode c07chain, chain generator go/internal/chain: real state transition, real BLS)",
